@@ -265,4 +265,6 @@ GLOBAL_CONSTS = {
     "os.environ": _environ,
     "sys.maxsize": lambda: V.mk_int(9223372036854775807),
     "sys.platform": lambda: O.strlit("linux"),
+    "logging.DEBUG": lambda: V.mk_int(10),
+    "logging.INFO": lambda: V.mk_int(20),
 }
